@@ -9,11 +9,18 @@
 (*                                  call) whose channel was not closed when    *)
 (*                                  Close returned                             *)
 (*   quiescent {final} / stuck {n}  as in BcastContract                        *)
+(*   leftopen {s}                   end of run (everything at rest): the channel *)
+(*                                  of subscriber s, whose context has ended,   *)
+(*                                  is not closed                               *)
 (*   lateclosed {s}                 end of run: the channel of subscriber s -   *)
 (*                                  whose Subscribe overlapped Close - was open  *)
 (*                                  when Close returned and is closed now: it    *)
 (*                                  had been accepted, so Close returned early  *)
 (* Ticks are 100 µs; the processor may run an item up to 5 ticks early.       *)
+(* Who must receive a value is decided when it is delivered, not when it is    *)
+(* batched: every subscriber whose Subscribe had returned before the clock     *)
+(* step that let the value fall due (and who stays) - also one that joined     *)
+(* after the Batch call.                                                        *)
 EXTENDS Integers, Sequences, FiniteSets, TLC
 
 Early == 5
@@ -30,9 +37,10 @@ AddBefore(R, X, v) == LET A == X \cup {p[1] : p \in {q \in R : q[2] \in X}}
 WouldCycle(R, X, v) == v \in X \/ \E x \in X : <<v, x>> \in R
 ToSet(s) == {s[i] : i \in 1..Len(s)}
 
+(* late: the Subscribe call was not over when Close was called - the batcher may silently drop such a subscriber *)
 CSubCall(c, e) == [c EXCEPT !.subs = (e.s :> [st |-> "called", kind |-> e.kind, recv |-> <<>>, lateWait |-> FALSE,
-                                               late |-> c.closeCalled]) @@ c.subs]
-CSubRet(c, e) == [c EXCEPT !.subs[e.s].st = IF c.subs[e.s].st = "called" THEN "subscribed" ELSE @]
+                                               late |-> c.closeCalled, retd |-> FALSE]) @@ c.subs]
+CSubRet(c, e) == [c EXCEPT !.subs[e.s].st = IF c.subs[e.s].st = "called" THEN "subscribed" ELSE @, !.subs[e.s].retd = TRUE]
 CCancel(c, e) == [c EXCEPT !.subs[e.s].st = "cancelled"]
 
 (* A new Batch for a key supersedes the pending earlier ones.  The replacement takes effect somewhere between *)
@@ -44,9 +52,17 @@ CBatchCall(c, e) ==
       \* a Batch issued once Close was called may be dropped silently: it makes the older value uncertain, but never surely superseded
       bs2 == [m \in DOMAIN c.bs |-> IF m \in older THEN [c.bs[m] EXCEPT !.maybe = TRUE, !.supBy = IF c.closeCalled THEN @ ELSE @ \cup {e.n}]
                                                    ELSE c.bs[m]]
-      elig == {s \in DOMAIN c.subs : c.subs[s].st = "subscribed"}
+      atCall == {s \in DOMAIN c.subs : c.subs[s].st = "subscribed"}
   IN [c EXCEPT !.bs = (e.n :> [key |-> e.key, due |-> e.due, ret |-> FALSE, sup |-> FALSE, supBy |-> {},
-                               maybe |-> inflight \/ c.closeCalled, elig |-> elig, delivered |-> {}]) @@ bs2]
+                               maybe |-> inflight \/ c.closeCalled, atCall |-> atCall, elig |-> {}, fixed |-> FALSE,
+                               delivered |-> {}]) @@ bs2]
+(* The clock moves.  A value may be delivered from Early ticks before its time on: the subscribers whose Subscribe *)
+(* had returned before this step are the ones that surely are registered when it is delivered.                     *)
+CAdv(c, e) ==
+  LET subd == {s \in DOMAIN c.subs : c.subs[s].st = "subscribed"}
+  IN [c EXCEPT !.now = e.now,
+               !.bs = [m \in DOMAIN c.bs |-> IF ~c.bs[m].fixed /\ e.now >= c.bs[m].due - Early
+                                               THEN [c.bs[m] EXCEPT !.elig = subd, !.fixed = TRUE] ELSE c.bs[m]]]
 CBatchRet(c, e) ==
   [c EXCEPT !.bs = [m \in DOMAIN c.bs |->
        IF m = e.n THEN [c.bs[m] EXCEPT !.ret = TRUE]
@@ -66,18 +82,28 @@ CRecv(c, e) ==
 
 LiveStalled(c) == \E s \in DOMAIN c.subs : c.subs[s].st = "subscribed" /\ c.subs[s].kind = "stalled"
 
+Missed(c, e, S(_)) ==
+  \E n \in DOMAIN c.bs : /\ c.bs[n].ret /\ ~c.bs[n].sup /\ ~c.bs[n].maybe /\ c.bs[n].due <= c.now
+                         /\ \E s \in S(n) : /\ c.subs[s].st = "subscribed"
+                                            /\ (c.subs[s].kind = "prompt" \/ (e.final /\ c.subs[s].kind = "slow"))
+                                            /\ n \notin ToSet(c.subs[s].recv)
 CQuiescent(c, e) ==
   IF c.closeCalled \/ LiveStalled(c) THEN c
-  ELSE IF \E n \in DOMAIN c.bs : /\ c.bs[n].ret /\ ~c.bs[n].sup /\ ~c.bs[n].maybe /\ c.bs[n].due <= c.now
-                                 /\ \E s \in c.bs[n].elig : /\ c.subs[s].st = "subscribed"
-                                                            /\ (c.subs[s].kind = "prompt" \/ (e.final /\ c.subs[s].kind = "slow"))
-                                                            /\ n \notin ToSet(c.subs[s].recv)
+  ELSE IF Missed(c, e, LAMBDA n : c.bs[n].elig \cap c.bs[n].atCall)
        THEN Bad("a staying subscriber did not receive the latest value of a key one interval after its Batch call")
+  ELSE IF Missed(c, e, LAMBDA n : c.bs[n].elig \ c.bs[n].atCall)
+       THEN Bad("a subscriber that joined before the value fell due and stayed did not receive it")
        ELSE c
 
 CCloseRet(c, e) ==
   IF e.open # <<>> THEN Bad("Close returned while a subscriber channel was still open")
   ELSE [c EXCEPT !.closeRet = TRUE]
+
+(* the context of s has ended, everything is at rest and its channel is still open *)
+CLeftOpen(c, e) ==
+  IF c.subs[e.s].st = "cancelled" /\ c.subs[e.s].retd /\ ~c.subs[e.s].late /\ ~LiveStalled(c)
+    THEN Bad("the channel of a departed subscriber was not closed")
+    ELSE c
 
 CStuck(c, e) ==
   IF e.n = 0 THEN c
@@ -93,10 +119,12 @@ CNext(c, e) ==
          [] e.ev = "cancel"     -> CCancel(c, e)
          [] e.ev = "batch_call" -> CBatchCall(c, e)
          [] e.ev = "batch_ret"  -> CBatchRet(c, e)
-         [] e.ev = "adv"        -> [c EXCEPT !.now = e.now]
+         [] e.ev = "adv"        -> CAdv(c, e)
          [] e.ev = "rwait"      -> [c EXCEPT !.subs[e.s].lateWait = c.closeRet]
          [] e.ev = "recv"       -> CRecv(c, e)
-         [] e.ev = "close_call" -> [c EXCEPT !.closeCalled = TRUE]
+         [] e.ev = "close_call" -> [c EXCEPT !.closeCalled = TRUE,
+                                             !.subs = [s \in DOMAIN c.subs |-> IF c.subs[s].retd THEN c.subs[s] ELSE [c.subs[s] EXCEPT !.late = TRUE]]]
+         [] e.ev = "leftopen"   -> CLeftOpen(c, e)
          [] e.ev = "close_ret"  -> CCloseRet(c, e)
          [] e.ev = "quiescent"  -> CQuiescent(c, e)
          [] e.ev = "stuck"      -> CStuck(c, e)
